@@ -198,7 +198,15 @@ def gen_play(rng, idx, long=False):
         feats["signal"] = sigspec[1].name
     if rng.chance(1, 5):
         args.append("-q")
-    return {"name": "gen%d" % idx, "text": "\n".join(out) + "\n", "args": args, "sigspec": sigspec, "features": feats}
+    res = {"name": "gen%d" % idx, "text": "\n".join(out) + "\n", "args": args, "sigspec": sigspec, "features": feats}
+    if sigspec is None and idx % 4 == 1:
+        # standard output is a terminal that is being resized while the play narrates (the resize handler runs in a
+        # goroutine of its own and publishes the width to everybody who narrates)
+        res["tty_cols"] = 100
+        res["sigspec"] = (0.15, signal.SIGWINCH)
+        res["more_signals"] = [(0.1, signal.SIGWINCH)] * 6
+        feats["terminal"] = "resized"
+    return res
 
 
 def handover_plays(rng):
@@ -265,7 +273,8 @@ def run_plays(plays, workers):
         logdir = tempfile.mkdtemp(prefix="verif-c14-race-")
         p["_logdir"] = logdir
         objs.append(e2e.Play(p["text"], args=p["args"], sigspec=p["sigspec"], timeout=90, keep=True,
-                             env={"GORACE": "halt_on_error=0 log_path=%s/race" % logdir}))
+                             env={"GORACE": "halt_on_error=0 log_path=%s/race" % logdir},
+                             tty_cols=p.get("tty_cols"), more_signals=p.get("more_signals")))
     results = e2e.run_many(objs, workers=workers)
     out = []
     for p, r in zip(plays, results):
